@@ -851,6 +851,11 @@ class Engine:
                     raise Unsupported('cannot havoc local %s=%r' % (n, v))
         fields, ghosts = self.intr.modset(self, body_nodes)
         precise = getattr(self.intr, 'last_precise', {})
+        if getattr(self.intr, 'last_imprecise', False) and not (
+                spec is not None and spec.modifies is not None):
+            # the inferred frame over-estimates (receiver class guessed): what is refuted below
+            # this loop may be an artefact of the havoc -- weak path (10.3), decided by replay
+            st.trace.append('~F%d' % (body_nodes[0].lineno if body_nodes else 0))
         if spec is not None and spec.modifies is not None:
             c = Ctx(self, st, st, self.cur_args, entry=self.entry_state)
             # an explicit loop frame replaces the inferred one (fields and ghosts)
